@@ -492,13 +492,27 @@ func passwordHandler(w http.ResponseWriter, r *http.Request, g, user string, wil
 		}
 	}
 
+	var etag string
+	if r.Method == "PUT" || r.Method == "POST" || r.Method == "DELETE" {
+		var err error
+		etag, err = group.GetUserTag(g, user, wildcard)
+		if err != nil {
+			httpError(w, err)
+			return
+		}
+		done := checkPreconditions(w, r, etag)
+		if done {
+			return
+		}
+	}
+
 	if r.Method == "PUT" {
 		var pw group.Password
 		done := getJSON(w, r, &pw)
 		if done {
 			return
 		}
-		err := group.SetUserPassword(g, user, wildcard, pw)
+		err := group.SetUserPasswordTag(g, user, wildcard, etag, pw)
 		if err != nil {
 			httpError(w, err)
 			return
@@ -521,7 +535,7 @@ func passwordHandler(w http.ResponseWriter, r *http.Request, g, user string, wil
 			Type: "bcrypt",
 			Key:  &k,
 		}
-		err = group.SetUserPassword(g, user, wildcard, pw)
+		err = group.SetUserPasswordTag(g, user, wildcard, etag, pw)
 		if err != nil {
 			httpError(w, err)
 			return
@@ -529,7 +543,9 @@ func passwordHandler(w http.ResponseWriter, r *http.Request, g, user string, wil
 		w.WriteHeader(http.StatusNoContent)
 		return
 	} else if r.Method == "DELETE" {
-		err := group.SetUserPassword(g, user, wildcard, group.Password{})
+		err := group.SetUserPasswordTag(
+			g, user, wildcard, etag, group.Password{},
+		)
 		if err != nil {
 			httpError(w, err)
 			return
@@ -554,6 +570,20 @@ func keysHandler(w http.ResponseWriter, r *http.Request, g string) {
 		return
 	}
 
+	var etag string
+	if r.Method == "PUT" || r.Method == "DELETE" {
+		var err error
+		etag, err = group.GetDescriptionTag(g)
+		if err != nil {
+			httpError(w, err)
+			return
+		}
+		done := checkPreconditions(w, r, etag)
+		if done {
+			return
+		}
+	}
+
 	if r.Method == "PUT" {
 		// cannot use getJSON due to the weird content-type
 		ctype, _, err :=
@@ -574,7 +604,7 @@ func keysHandler(w http.ResponseWriter, r *http.Request, g string) {
 			httpError(w, err)
 			return
 		}
-		err = group.SetKeys(g, keys.Keys)
+		err = group.SetKeysTag(g, etag, keys.Keys)
 		if err != nil {
 			httpError(w, err)
 			return
@@ -582,7 +612,7 @@ func keysHandler(w http.ResponseWriter, r *http.Request, g string) {
 		w.WriteHeader(http.StatusNoContent)
 		return
 	} else if r.Method == "DELETE" {
-		err := group.SetKeys(g, nil)
+		err := group.SetKeysTag(g, etag, nil)
 		if err != nil {
 			httpError(w, err)
 			return
